@@ -69,6 +69,13 @@ class RunPlan:
         """Explicit task list (boot, request); None = n seeded runs over self.boots()."""
         return None
 
+    batch = 5000
+    SLIM_KEYS = ("digest", "n_ops", "sched_steps", "violations", "counters", "probes", "faults_fired",
+                 "state_hashes", "interleaving", "harness_error")
+
+    def slim(self, r):
+        return {k: r[k] for k in self.SLIM_KEYS if k in r}
+
     def post_process(self, tasks, results, pool):
         """Hook: derive further violations from the batch (may append to
         results[i]["violations"]); used by differential oracles."""
@@ -108,15 +115,28 @@ class RunPlan:
                 rs = h64(seed, self.prop, i)
                 tasks.append((b, self.request(rs, b)))
         pool = driver.Pool(workers=args.workers)
-        results = pool.run(tasks)
-        harness = [(i, r["harness_error"]) for i, r in enumerate(results) if "harness_error" in r]
-        if harness:
-            for i, e in harness[:5]:
-                out("HARNESS-ERROR run=%d seed=%s %s" % (i, tasks[i][1].get("seed"), e.strip().splitlines()[-1] if e.strip() else e))
-            self.evidence(tier, seed, t0, tasks, results, {}, {}, {}, harness=len(harness))
-            return 2
-
-        self.post_process(tasks, results, pool)
+        # batches bound memory (results are slimmed after their differential oracles ran) and
+        # let a wall-clock budget end a thorough exploration early without ever faking a pass:
+        # whatever was explored is what the evidence reports
+        budget = float(os.environ.get("VERIF_BUDGET_S") or (1e9 if tier == "quick" else 5400))
+        results = []
+        done = 0
+        while done < len(tasks):
+            bt = tasks[done:done + self.batch]
+            br = pool.run(bt)
+            harness = [(done + i, r["harness_error"]) for i, r in enumerate(br) if "harness_error" in r]
+            if harness:
+                for i, e in harness[:5]:
+                    out("HARNESS-ERROR run=%d seed=%s %s" % (i, tasks[i][1].get("seed"), e.strip().splitlines()[-1] if e.strip() else e))
+                self.evidence(tier, seed, t0, tasks[:done + len(bt)], results + br, {}, {}, {}, harness=len(harness))
+                return 2
+            self.post_process(bt, br, pool)
+            results.extend(self.slim(r) for r in br)
+            done += len(bt)
+            if time.time() - t0 > budget and done < len(tasks):
+                out("note: wall-clock budget of %.0fs reached after %d of %d planned runs" % (budget, done, len(tasks)))
+                tasks = tasks[:done]
+                break
 
         # determinism self-test: same seeds in templates with other PYTHONHASHSEED
         st = {"pairs": 0, "mismatches": 0}
